@@ -27,8 +27,13 @@ MUTATORS = {'append', 'extend', 'add', 'update', 'insert', 'appendleft', 'setdef
 
 
 class Deps:
-    def __init__(self, fn):
+    def __init__(self, fn, resolver=None):
+        """resolver(name) -> FunctionDef of the method `self.<name>` / module function `<name>` (or None): calls to such
+        functions contribute the sources of what they return, with the callee's parameters replaced by the sources of the
+        arguments (one summary per callee, no recursion into recursive calls)."""
         self.fn = fn
+        self.resolver = resolver
+        self._summaries = {}
         self.params = set(func_params(fn))
         self.binds = {k: list(v) for k, v in local_assignments(fn).items()}
         for n in walk_no_nested(fn):
@@ -100,11 +105,56 @@ class Deps:
                 nm = f.attr if isinstance(f, ast.Attribute) else f.id if isinstance(f, ast.Name) else None
                 if nm:
                     out.add(f'call:{nm}')
+                    self._through_callee(n, nm, out, seen)
             elif isinstance(n, (ast.SetComp, ast.Set, ast.DictComp, ast.Dict)):
                 out.add(f'kind:{type(n).__name__}')
             elif isinstance(n, ast.Compare):
                 for op in n.ops:
                     out.add(f'cmp:{type(op).__name__}')
+
+    def callee(self, call):
+        """(FunctionDef, {param: argument expr}) for a call that the resolver knows, else (None, None)."""
+        if self.resolver is None:
+            return None, None
+        f = call.func
+        if isinstance(f, ast.Attribute) and isinstance(f.value, ast.Name) and f.value.id in ('self', 'cls'):
+            fn = self.resolver(f.attr)
+            skip = 1
+        elif isinstance(f, ast.Name):
+            fn = self.resolver(f.id)
+            skip = 0
+        else:
+            return None, None
+        if fn is None or fn is self.fn:
+            return None, None
+        params = [a.arg for a in fn.args.args]
+        if skip and any(isinstance(d, ast.Name) and d.id == 'staticmethod' for d in fn.decorator_list):
+            skip = 0
+        params = params[skip:]
+        amap = dict(zip(params, call.args))
+        for kw in call.keywords:
+            if kw.arg in params:
+                amap[kw.arg] = kw.value
+        return fn, amap
+
+    def _through_callee(self, call, nm, out, seen):
+        fn, amap = self.callee(call)
+        if fn is None:
+            return
+        if nm not in self._summaries:
+            self._summaries[nm] = set()   # recursion guard
+            sub = Deps(fn, self.resolver)
+            sub._summaries = self._summaries
+            summ = set()
+            for r in walk_no_nested(fn):
+                if isinstance(r, ast.Return) and r.value is not None:
+                    summ |= sub.sources(r.value)
+            self._summaries[nm] = summ
+        for src in self._summaries[nm]:
+            if src.startswith('param:') and src[6:] in amap:
+                self._walk(amap[src[6:]], out, seen)
+            elif not src.startswith('param:'):
+                out.add(src)
 
     def reach(self, expr) -> list:
         """expr and every expression bound (transitively) to a local it mentions - the ASTs behind sources()."""
